@@ -13,7 +13,7 @@ from hypothesis import strategies as st
 from ..cells import BLANK
 from ..common import HarnessError, Res, exc_str, hyp_campaign, tb_tail
 from ..refterm import OutStream, Pty, RefTerm, ScriptedIn
-from ..simio import LineInjector, Patched, Sim, WouldBlockForever, close_trigger_fds, fd_count
+from ..simio import PointInjector, Patched, Sim, WouldBlockForever, close_trigger_fds, fd_count
 
 PROP = "C12"
 RULE = (
@@ -22,8 +22,10 @@ RULE = (
     "state: generated termios attributes on a fresh pty (iflag/oflag/lflag bits, VMIN/VTIME/VSTART/VSTOP, read back), file status flags "
     "(O_NONBLOCK, O_APPEND), pre-existing SIGINT handler (default, SIG_IGN, a Python function) and wake-up fd (none or a harness "
     "pipe). Body: 0-6 operations (renders, requests on the virtual-time harness with bytes, trigger calls). Exit: normal, raise after "
-    "the k-th operation (every prefix), or SIGINT at the k-th executed line of a request (KeyboardInterrupt under the default "
-    "handler). Main and worker thread; the same case repeated up to 25x for the descriptor count. Oracle: before/after equality of "
+    "the k-th operation (every prefix), or SIGINT at the k-th interruption point of a request (KeyboardInterrupt under the default handler): the points are "
+    "exactly where CPython can run a signal handler inside the library - entry of each function of curtsies/input.py and "
+    "curtsies/termhelpers.py and the return of each call they make through os/select/signal/fcntl/termios/tty/time (a proxy makes the real "
+    "call, then raises the signal, so the effect of the system call is done when the exception surfaces at the call site). Main and worker thread; the same case repeated up to 25x for the descriptor count. Oracle: before/after equality of "
     "tcgetattr, F_GETFL, getsignal(SIGINT), the wake-up fd, the number of open descriptors; F_GETFL after every request; reference "
     "terminal: cursor visible, main buffer active, main screen cells untouched (FullscreenWindow), nothing above the entry row "
     "touched (CursorAwareWindow). Non-trivial: exit by exception, a nested stack, or a non-default initial handler/flags."
@@ -232,8 +234,13 @@ def one_run(case, res, sim):
                                         signal.raise_signal(signal.SIGINT)
                                         for _ in range(3):
                                             pass
-                                    with LineInjector(ex.get("line", 5), fire):
-                                        inp.send(op.get("timeout", 0))
+                                    inj = PointInjector(ex.get("point", ex.get("line", 5)), fire)
+                                    try:
+                                        with inj:
+                                            inp.send(op.get("timeout", 0))
+                                    finally:
+                                        if inj.where:
+                                            res.label("sigint_" + inj.where.replace(" ", "_"))
                                 else:
                                     inp.send(op.get("timeout", 0))
                                 fl_now = fcntl.fcntl(pty.slave, fcntl.F_GETFL)
@@ -409,8 +416,28 @@ def strategy():
     exit_ = st.one_of(
         st.just({"mode": "normal"}),
         st.fixed_dictionaries({"mode": st.just("raise"), "after": st.integers(0, 6), "exc": st.sampled_from(["plain", "args", "unicode"])}),
-        st.fixed_dictionaries({"mode": st.just("sigint"), "after": st.integers(0, 5), "line": st.integers(1, 45)}),
+        st.fixed_dictionaries({"mode": st.just("sigint"), "after": st.integers(0, 5), "point": st.one_of(st.sampled_from(range(1, 23)), st.integers(1, 150)), "aimed": st.sampled_from([True, True, True, False])}),
+        st.fixed_dictionaries({"mode": st.just("sigint"), "after": st.integers(0, 5), "point": st.sampled_from(range(1, 23)), "aimed": st.sampled_from([True, True, True, False])}),
     )
+
+    def aim(case):
+        """a SIGINT exit is aimed at a request that exists: a stack with an Input on the main thread, and the index of a request op"""
+        ex = case["exit"]
+        if ex["mode"] == "sigint":
+            if "Input" not in case["stack"]:
+                case["stack"] = ["Input"] + [k for k in case["stack"] if k not in ("CbreakTermmode",)][:1]
+            reqs = [i for i, op in enumerate(case["body"]) if op["op"] == "request"]
+            if not reqs:
+                case["body"].append({"op": "request", "timeout": 0, "data": ["61", "c3a9", "1b5b41", None][ex["after"] % 4]})
+                reqs = [len(case["body"]) - 1]
+            ex["after"] = reqs[ex["after"] % len(reqs)]
+            if ex.pop("aimed", False):
+                # the configuration in which the signal becomes a KeyboardInterrupt inside the request
+                case["thread"] = False
+                case["options"]["sigint_event"] = False
+                case["init"]["handler"] = "default"
+        return case
+
     return st.fixed_dictionaries(
         {
             "stack": st.sampled_from(STACKS),
@@ -424,9 +451,9 @@ def strategy():
             "repeat": st.sampled_from([1, 1, 1, 2, 25]),
             "cycles": st.sampled_from([1, 1, 2, 3]),
         }
-    )
+    ).map(aim)
 
 
 def campaign(col, tier, seed, shard, nshards):
-    n = 1600 if tier == "quick" else 32000
+    n = 4000 if tier == "quick" else 64000
     hyp_campaign(col, strategy(), run_case, max(n // nshards, 100), seed * 100 + shard)
